@@ -16,7 +16,7 @@ def config(quick):
         max_loggers=2, init_level=5, names=["a"], bool_lists=BOOL_LISTS, layouts=[""],
         # (the level option with value 0 = Panic: the zero value is a level like any other)
         opt_lists=[[], [opt("Level", 2)], [opt("JSONMode", 1), opt("Attrs", 2, 7)], [opt("Writer", 1)], [opt("Level", 0)]],
-        setter_args=sa, acts=["Set", "With", "New", "NewDetached"], probe_sevs=[4, 2], max_list=1,
+        setter_args=sa, acts=["Set", "With", "New", "NewDetached", "Lookup"], probe_sevs=[4, 2], max_list=1,
     )
 
 
@@ -37,7 +37,7 @@ def config_skip(quick):
     """(C) WithSkip keeps one child per n: 3-4 loggers, skip counts set and re-set."""
     return dict(
         max_loggers=3 if quick else 4, init_level=5, names=["a"], bool_lists=BOOL_LISTS, layouts=[""], opt_lists=[[]],
-        setter_args={"Skip": [(1, 0), (2, 0)]}, acts=["Set", "With", "New", "PkgSkip"], probe_sevs=[4], max_list=1,
+        setter_args={"Skip": [(1, 0), (2, 0)]}, acts=["Set", "With", "New", "PkgSkip", "Lookup"], probe_sevs=[4], max_list=1,
     )
 
 
@@ -120,7 +120,7 @@ def rand_config():
         max_loggers=3, init_level=5, names=["a", "b", "c"], bool_lists=BOOL_LISTS, layouts=["", "15:04:05"],
         opt_lists=[[], [opt("Level", 2)], [opt("JSONMode", 1), opt("Attrs", 2, 7)], [opt("Writer", 1)], [opt("Level", 0)],
                    [opt("ColorMode", 3), opt("Level", 5), opt("AddWriter", 2)], [opt("ErrorWriter", 3), opt("UTCMode", 1)]],
-        setter_args=sa, acts=["Set", "With", "New", "NewDetached", "PkgSetLevel", "SetDefault", "Flags", "PkgLevel", "PkgSkip", "LogNest", "EachNew", "BulkKids", "Burn"], probe_sevs=[4, 2],
+        setter_args=sa, acts=["Set", "With", "New", "NewDetached", "PkgSetLevel", "SetDefault", "Flags", "PkgLevel", "PkgSkip", "LogNest", "EachNew", "BulkKids", "Burn", "Lookup"], probe_sevs=[4, 2],
         flag_sets=FLAG_SETS,
     )
 
